@@ -1053,3 +1053,41 @@ func lastErr(f string) error                            { return nil }
 //@   panics allowed
 //@   requires pp != nil
 //@   ensures[C18] called("expand") ==> len(pp.paths) == old(len(pp.paths))
+
+// ---------------------------------------------------------------------------
+// C19: the two build-time gates through which code reaches host functionality.
+// checkImport, native branch (the import has no template tree): names are
+// declared in the scopes only after the configured importer has returned a
+// package and no error for the path; without an importer, with an error or
+// with a nil package the import fails. checkNodes, case *ast.Go: the statement
+// is accepted only when the embedder allowed it.
+// (The other obligations of these two units need type-checker invariants and
+// are not claimed: bucket X00.)
+// ---------------------------------------------------------------------------
+
+// specImportOK: the configured importer returns a package and no error for the
+// path of the import statement.
+func specImportOK(tc *typechecker, impor *ast.Import) bool {
+	if tc.importer == nil {
+		return false
+	}
+	pkg, err := tc.importer.Import(impor.Path)
+	return err == nil && pkg != nil
+}
+
+//@ func (*typechecker).checkImport
+//@   props X00 C19
+//@   opt puremethods Import PackageName
+//@   opt track Declare declarePackageName toTypeCheckerScope
+//@   opt stable typechecker github.com/open2b/scriggo/ast.Import
+//@   panics allowed
+//@   requires tc != nil && impor != nil
+//@   ensures[C19] old(impor.Tree) == nil && (called("Declare") || called("declarePackageName") || called("toTypeCheckerScope")) ==> old(specImportOK(tc, impor))
+//@   ensures[C19] old(impor.Tree) == nil && !old(specImportOK(tc, impor)) ==> result != nil
+
+//@ clause (*typechecker).checkNodes/case *ast.Go
+//@   props X00 C19
+//@   opt stable typechecker
+//@   panics allowed
+//@   requires tc != nil && node != nil
+//@   ensures[C19] old(tc.opts.allowGoStmt)
